@@ -5,6 +5,7 @@ package c09
 import (
 	"encoding/json"
 	"fmt"
+	hcpb "github.com/samaritan-proxy/samaritan/pb/config/hc"
 	"net"
 	"strings"
 	"sync"
@@ -17,8 +18,8 @@ import (
 	"github.com/samaritan-proxy/samaritan/utils/verifpoint"
 	"pgregory.net/rapid"
 
-	"verif/harness/ref"
 	"verif/harness/portres"
+	"verif/harness/ref"
 	"verif/harness/sim"
 	"verif/harness/statpurge"
 	"verif/harness/tcpsim"
@@ -41,6 +42,9 @@ type stopCase struct {
 	DrainFirst bool   `json:"drain_first"`
 	DrainOnly  bool   `json:"drain_only"` // only StopListen is called at the point; Stop follows after the port was probed
 	HoldMs     int    `json:"hold_ms"`
+	// CfgUpdates: configuration updates delivered to a TCP service while it serves, before the stop (from the same goroutine,
+	// as the controller does): each sets the health check to 0 none, 1 a TCP checker, 2 a Redis checker, 3 a MySQL checker
+	CfgUpdates []int `json:"cfg_updates,omitempty"`
 }
 
 const stopDeadline = 10 * time.Second
@@ -289,9 +293,32 @@ func checkStop(c stopCase) (nt bool, v *verdict) {
 			}
 		}
 		time.Sleep(time.Duration(c.HoldMs) * time.Millisecond)
+		if c.Kind == "tcp" {
+			for _, u := range c.CfgUpdates {
+				var nhc *hcpb.HealthCheck
+				if u > 0 {
+					nhc = &hcpb.HealthCheck{Interval: 20 * time.Millisecond, Timeout: 100 * time.Millisecond, FallThreshold: 1, RiseThreshold: 1}
+					switch u {
+					case 1:
+						nhc.Checker = &hcpb.HealthCheck_TcpChecker{TcpChecker: &hcpb.TCPChecker{}}
+					case 2:
+						nhc.Checker = &hcpb.HealthCheck_RedisChecker{RedisChecker: &hcpb.RedisChecker{}}
+					default:
+						nhc.Checker = &hcpb.HealthCheck_MysqlChecker{MysqlChecker: &hcpb.MySQLChecker{}}
+					}
+				}
+				ncfg := tcpsim.Config(tcpsim.Opts{HealthCheck: nhc, IdleTimeout: time.Second})
+				ncfg.Listener = p.Config().Listener
+				func() {
+					defer func() { recover() }() // a panic here is C06's subject (config op of its e2e part)
+					p.OnSvcConfigUpdate(ncfg)
+				}()
+				time.Sleep(30 * time.Millisecond) // a check round or two
+			}
+		}
 		doStop()
 	}
-	nt = c.StopAt != "serving" || c.Conns > 0 || c.Backend != "responsive"
+	nt = c.StopAt != "serving" || c.Conns > 0 || c.Backend != "responsive" || len(c.CfgUpdates) > 0
 	select {
 	case <-stopCalled:
 	case <-time.After(5 * time.Second):
@@ -401,6 +428,9 @@ func genStop(t *rapid.T) stopCase {
 	if c.StopAt == "serving" {
 		c.Conns = rapid.IntRange(0, 5).Draw(t, "conns")
 		c.InFlight = rapid.IntRange(0, 5).Draw(t, "inflight")
+		if c.Kind == "tcp" && rapid.IntRange(0, 2).Draw(t, "cfgupd") == 0 {
+			c.CfgUpdates = rapid.SliceOfN(rapid.IntRange(0, 3), 1, 4).Draw(t, "cfgupdates")
+		}
 		// more requests in flight than a session's queue (32) holds: its reader is parked, not reading; and, rarely, more over all
 		// sessions than the two queues of a backend connection (2 x 1024) hold: the readers are parked inside the backend client's Send
 		switch rapid.IntRange(0, 11).Draw(t, "deep") {
